@@ -336,9 +336,13 @@ def _run_hostile(hostile, placement, need_fo=False, probes=True, allowed=(), wan
         new = sim.Session(S, ("127.0.0.1", 10010), wait_timeout=25)
         rn = new.feed(W.register(b"ctx-new-"))
         same = sim.Session(S, ADDR, wait_timeout=25)          # a client reconnecting from the very same address and port
-        rs = same.feed(W.register(b"ctx-same"))
+        rs = same.feed(W.register(b"ctx-same")) if same.alive else []
+        if not rs and not same.alive:
+            bad.append(("other-session-broken", "a new session from the same peer address was closed by the server unserved"))
         for who, sess, first in (("older", older, older.conn.sent[0]), ("new", new, rn[0] if rn else None),
                                  ("same-peer", same, rs[0] if rs else None)):
+            if who == "same-peer" and not same.alive:
+                continue
             try:
                 handle = W.split_frames(first)[0]["session"]
                 rr = sess.feed(W.send_rr_data(handle, W.read_tag(W.tag_path("a"), 4), b"ctx-prba"))
